@@ -216,7 +216,7 @@ def run_case(case):
                         h = ri - (d * d + ri * ri - rj * rj) / (2 * d)     # height of the cap of sphere i inside sphere j
                         exp = 4 * math.pi * ri ** 2 - 2 * math.pi * ri * h
                     tolq = 4 * math.pi * ri ** 2 * (2.5 / math.sqrt(npts) + 1.0 / npts)
-                    if abs(full[f, i] - exp) > tolq:
+                    if not abs(full[f, i] - exp) <= tolq:
                         viol.append(("two-spheres", "frame %d atom %d: area %.6g, analytic cap-removed area %.6g (quadrature tolerance %.3g)" % (
                             f, i, full[f, i], exp, tolq)))
                         break
